@@ -190,8 +190,8 @@ def run_case(case):
 def summarise(agg, tier):
     q = tier == "quick"
     return {
-        "thresholds": {"compiled_ok": 300 if q else 8000, "with_cpu_operator": 80 if q else 2500, "with_2_npu_islands": 25 if q else 800, "arena_pairs": 1000 if q else 40000,
-                       "live_across_checks": 20 if q else 800, "reports_parsed": 300 if q else 8000},
+        "thresholds": {"compiled_ok": 300 if q else 8000, "with_cpu_operator": 80 if q else 2000, "with_2_npu_islands": 25 if q else 800, "arena_pairs": 1000 if q else 40000,
+                       "live_across_checks": 20 if q else 800, "reports_parsed": 250 if q else 7000},
         "rule": "compile campaign biased to CPU/NPU interleavings (cpu-mix, several NPU islands, multi-output DAGs) x memory modes x allocators x --cpu-tensor-alignment 16..256 x "
                 "cache sizes; the OfflineMemoryAllocation plan, the tensor table, the decoded command streams, the console summary and the CSV of every compilation are checked. "
                 "distinct = (family, accelerator, mode, alignment, arena tensor count) classes",
